@@ -41,7 +41,9 @@ func RunConvDiff(s Scenario) (o Outcome) {
 	verifrt.ResetBudget()
 	defer guard(&o)
 	T := typeOf(s.Target.In[0].T)
-	_, args, berr := buildArgs(Scenario{Mode: "convert", Target: s.Target, Inputs: s.Inputs, Convs: s.Convs}, w)
+	base := s
+	base.Mode = "convert"
+	_, args, berr := buildArgs(base, w)
 	if berr != "" {
 		o.BuildErr = berr
 		return
@@ -74,7 +76,7 @@ func RunConvDiff(s Scenario) (o Outcome) {
 
 	// identity call on fresh objects, replaying the recorded choices
 	w2 := NewWorld()
-	_, args2, _ := buildArgs(Scenario{Mode: "convert", Target: s.Target, Inputs: s.Inputs, Convs: s.Convs}, w2)
+	_, args2, _ := buildArgs(base, w2)
 	received := "<not run>"
 	idf := reflect.MakeFunc(reflect.FuncOf([]reflect.Type{T}, []reflect.Type{T}, false), func(a []reflect.Value) []reflect.Value {
 		received = provOf(a[0])
@@ -194,7 +196,7 @@ func init() {
 		}
 	})
 	Plans["C10"] = map[string][]Step{
-		"quick":    {{Tier: "convert", Size: 0, Bound: 1}, {Tier: "convert", Size: 1, Bound: 0}},
-		"thorough": {{Tier: "convert", Size: 1, Bound: 1}, {Tier: "convert", Size: 2, Bound: 0}, {Tier: "convert", Size: 0, Bound: 1, Bound2: true}},
+		"quick":    {{Tier: "convert", Size: 0, Bound: 1}, {Tier: "convert", Size: 1, Bound: 0}, {Tier: "malformed", Size: 1, Bound: 0}, {Tier: "convert-twins", Bound: 1}},
+		"thorough": {{Tier: "convert", Size: 1, Bound: 1}, {Tier: "convert", Size: 2, Bound: 0}, {Tier: "convert", Size: 0, Bound: 1, Bound2: true}, {Tier: "malformed", Size: 1, Bound: 1}, {Tier: "convert-twins", Bound: 2}},
 	}
 }
